@@ -52,12 +52,16 @@ func confirmMain(inPath, outPath string) {
 		}
 	}()
 	var ru0, ru1 syscall.Rusage
+	var ms0, ms1 runtime.MemStats
+	runtime.ReadMemStats(&ms0)
 	syscall.Getrusage(syscall.RUSAGE_SELF, &ru0)
 	t0 := time.Now()
 	var or spec.OpResult
 	guard(&or, func() error { return runEntry(env, c.Entry, c.Info, c.Data) })
 	res.WallS = time.Since(t0).Seconds()
 	syscall.Getrusage(syscall.RUSAGE_SELF, &ru1)
+	runtime.ReadMemStats(&ms1)
+	res.HeapSys, res.TotalAlloc = ms1.HeapSys, ms1.TotalAlloc-ms0.TotalAlloc
 	atomic.StoreInt32(&stop, 1)
 	<-done
 	cpu := func(r syscall.Rusage) float64 {
